@@ -291,7 +291,12 @@ def idle_gap_workload(ctx, rng, inj, family, plan):
     sut.srv.start()
     results = []
     lock = threading.Lock()
-    inj.configure("stall", seed=rng.randrange(1 << 30), plan=dict(plan, budget=10 ** 9, cap=0.04))
+    if plan is None:
+        # observation only: lets the injector learn which lines the workers execute when they retire and come back
+        inj.configure("yield", seed=0, p=0.0)
+        plan = {"qualname": "<learning>", "line": 0, "role": "worker", "k": 0}
+    else:
+        inj.configure("stall", seed=rng.randrange(1 << 30), plan=dict(plan, budget=10 ** 9, cap=0.04))
     hits0 = inj.hits
 
     def client(cid, seed):
@@ -313,7 +318,7 @@ def idle_gap_workload(ctx, rng, inj, family, plan):
         except Exception:
             pass
     ths = [threading.Thread(target=client, args=(c, rng.randrange(1 << 30)), name="vf-client-gap%d" % c)
-           for c in range(2)]
+           for c in range(rng.choice([1, 1, 2]))]   # (a lone client: nobody else's request can rescue a stranded one)
     for t in ths:
         t.daemon = True
         t.start()
@@ -529,14 +534,23 @@ def run(ctx):
     # 1b. stall sweep: requests arriving while pool workers retire
     # the pool-module lines that pool workers and the accept thread were seen executing in the workloads above
     import jsonrpclib.threadpool as tpmod
+    for fam in FAMILIES:
+        idle_gap_workload(ctx, rng, inj, fam, None)
     pool_lines = set(inject.statement_lines(tpmod))
-    pts = [{"qualname": q, "line": l, "role": r, "k": k} for (q, l, r) in sorted(inj.seen)
-           if (q, l) in pool_lines and r in ("worker", "serve") for k in (1, 2, 3)]
+    # functions are learned (no method name is assumed), their statement lines are then enumerated statically so that
+    # every shard partitions the same list
+    roles_of = {}
+    for (q, l, r) in inj.seen:
+        if (q, l) in pool_lines and r in ("worker", "serve"):
+            roles_of.setdefault(q, set()).add(r)
+    pts = [{"qualname": q, "line": l, "role": r, "k": k} for (q, l) in sorted(pool_lines) if q in roles_of
+           for r in sorted(roles_of[q]) for k in (1, 2, 3)]
+    ctx.counters["idle-gap-stall-points-enumerated"] = len(pts)
     if not pts:
         pts = idle_gap_points()
     mine = [pt for i, pt in enumerate(pts) if ctx.mine(i)]
     rng.shuffle(mine)
-    for pt in mine[:ctx.pick(36, 10 ** 6)]:
+    for pt in mine[:ctx.pick(70, 10 ** 6)]:
         if ctx.time_left() < 60:
             ctx.unsure("time budget exhausted in the idle-gap sweep")
             break
